@@ -29,8 +29,8 @@ type tTail struct {
 	Rest []uint64 `rlp:"tail"`
 }
 type tOpt struct {
-	A *uint64 `rlp:"nil"`
-	B *[]byte `rlp:"nil"`
+	A *uint64  `rlp:"nil"`
+	B *[]byte  `rlp:"nil"`
 	C *tSimple `rlp:"nil"`
 	D uint64
 	x int
